@@ -193,6 +193,8 @@ class HistoryFamily:
             else:
                 ops.append(['raise', i, rng.randint(1, 4)])
         ops.append(['full', rng.randrange(len(pool))])
+        # an abandoned iterator may stay REFERENCED (suspended: its finally clause has not run when the next evaluation starts)
+        ops = [op + ['keep'] if op[0] == 'take' and rng.random() < 0.35 else op for op in ops]
         if share_conds[0] and rng.random() < 0.7:
             # the query that was NOT built last, evaluated twice in a row
             ops = [['full', 0], ['full', 0]] + ops
@@ -601,5 +603,7 @@ def join_history(H, rng, tier):
     ops = [['take', 0, rng.randint(1, 4)]]
     if rng.random() < 0.4:
         ops.append(['take', 0, rng.randint(1, 10)])
+    # (the abandoned iterator closed - or, a third of the time, still referenced and suspended while the query is evaluated again)
+    ops = [op + ['keep'] if rng.random() < 0.35 else op for op in ops]
     ops += [['full', 0], ['full', 0]]
     return dict(kind='multi', heap=base['heap'], doms=base['doms'], pool=[q], ops=ops, share_terms=False)
